@@ -66,6 +66,27 @@ func (c *ctx) emit(op string, out string) {
 	}
 }
 
+// begin records an operation BEFORE it runs and flushes, so that if the real code kills the process
+// (os.Exit in fatal, runtime fatal error) the operation that did it is on disk; finish records its output.
+func (c *ctx) begin(op string) {
+	fmt.Fprintln(c.ops, op)
+	c.ops.Flush()
+}
+
+func (c *ctx) finish(op string, out string) {
+	fmt.Fprintln(c.out, out)
+	c.out.Flush()
+	c.nOps++
+	k := op
+	if i := strings.IndexByte(op, ' '); i >= 0 {
+		k = op[:i]
+	}
+	c.kinds[k]++
+	if len(c.samples) < 12 {
+		c.samples = append(c.samples, op+" => "+out)
+	}
+}
+
 // class records one distinct non-trivial case (by the mode's own rule).
 func (c *ctx) class(s string) { c.classes[s] = true }
 
